@@ -189,6 +189,7 @@ type zzRef struct {
 	iters  int
 	calls  int
 	maxIt  int
+	maxCalls int
 	// exits leaving sub-forms: "form/role/kind" (carve-out regions only)
 	transits []string
 	sites    []*zzSite
@@ -196,7 +197,7 @@ type zzRef struct {
 }
 
 func zzNewRef() *zzRef {
-	return &zzRef{glob: &zzFrame{}, maxIt: 3}
+	return &zzRef{glob: &zzFrame{}, maxIt: 3, maxCalls: 12}
 }
 
 func zzLower(s string) string {
@@ -398,7 +399,7 @@ func zzIsSpecial(h string) bool {
 	case "quote", "zzvtrace", "progn", "prog1", "if", "when", "unless", "cond", "case", "and", "or", "let", "let*", "setq",
 		"lambda", "defun", "function", "funcall", "apply", "mapcar", "values", "multiple-value-bind", "dotimes", "dolist",
 		"do", "do*", "block", "return-from", "return", "tagbody", "go", "unwind-protect", "ignore-errors", "error",
-		"recover", "with-mutex-lock", "with-open-file":
+		"recover", "with-mutex-lock", "with-open-file", "defvar":
 		return true
 	}
 	return false
@@ -647,6 +648,18 @@ func (r *zzRef) evalList(l slip.List, e *zzFrame) zzOut {
 		c := r.mkClo(rest[1:], e, name)
 		r.fnames = append(r.fnames, name)
 		r.fns = append(r.fns, c)
+		return zzOne(zzVal{k: zzKSym, s: name})
+	case "defvar":
+		// (defvar name [value]): binds the global only when it has no value yet
+		name := zzLower(string(rest[0].(slip.Symbol)))
+		if r.lookupLex(r.glob, name) == nil && 1 < len(rest) {
+			vo := r.ev("defvar", "value", rest[1], e)
+			if vo.ex != nil {
+				return vo
+			}
+			r.glob.names = append(r.glob.names, name)
+			r.glob.cells = append(r.glob.cells, &zzCell{v: vo.v})
+		}
 		return zzOne(zzVal{k: zzKSym, s: name})
 	case "function":
 		if s, ok := rest[0].(slip.Symbol); ok {
@@ -926,7 +939,7 @@ func (r *zzRef) applyClo(c *zzClo, args []zzVal, caller *zzFrame) zzOut {
 		return zzErr("program-error")
 	}
 	r.calls++
-	if 12 < r.calls {
+	if r.maxCalls < r.calls {
 		vrt.Assume(false) // recursion bound of the harness
 	}
 	fe := &zzFrame{up: c.env, isFn: true, dyn: caller, noClo: c.env == nil || c.env.up == nil && !c.env.isFn, clo: c, sblk: true}
